@@ -57,9 +57,61 @@ class Ev:
         return sub.body(f["hir"]["value"], None, {})
 
     # ---- values
+    _NORET = object()
+
+    def _stmt_return(self, e, payload, loc_):
+        """value returned by a statement-level `if .. { return v }` (nested ifs, `if let`), or _NORET when control goes on"""
+        e = _strip(e)
+        k = e.get("k")
+        if k == "Ret":
+            return self.body(e["e"], payload, loc_) if e.get("e") is not None else "unit"
+        if k == "Block":
+            l2 = dict(loc_)
+            for st in e.get("stmts", []):
+                if st.get("k") == "Let" and st["pat"].get("k") == "PBinding" and st.get("init") is not None:
+                    l2[st["pat"]["name"]] = self.body(st["init"], payload, l2)
+                elif st.get("k") in ("Semi", "Expr") and st.get("e") is not None:
+                    r = self._stmt_return(st["e"], payload, l2)
+                    if r is not Ev._NORET:
+                        return r
+            if e.get("expr") is not None:
+                return self._stmt_return(e["expr"], payload, l2)
+            return Ev._NORET
+        if k == "If":
+            c = _strip(e["cond"])
+            if c.get("k") == "LetExpr":
+                v = self.body(c["init"], payload, loc_)
+                b = self.bind(c["pat"], v)
+                if b is not None:
+                    l2 = dict(loc_)
+                    l2.update(b)
+                    return self._stmt_return(e["then"], payload, l2)
+                return self._stmt_return(e["else"], payload, loc_) if e.get("else") is not None else Ev._NORET
+            if self.truth(c, payload, loc_):
+                return self._stmt_return(e["then"], payload, loc_)
+            return self._stmt_return(e["else"], payload, loc_) if e.get("else") is not None else Ev._NORET
+        return Ev._NORET
+
     def body(self, e, payload, loc_):
         e = _strip(e)
         k = e.get("k")
+        if k == "Block" and e.get("stmts"):
+            # straight-line body: `let x = ..;` bindings, `if .. { return v }` early exits, then the tail expression
+            l2 = dict(loc_)
+            for st in e["stmts"]:
+                if st.get("k") == "Let" and st["pat"].get("k") == "PBinding" and st.get("init") is not None:
+                    l2[st["pat"]["name"]] = self.body(st["init"], payload, l2)
+                elif st.get("k") in ("Semi", "Expr") and st.get("e") is not None:
+                    r = self._stmt_return(st["e"], payload, l2)
+                    if r is not Ev._NORET:
+                        return r
+                else:
+                    raise Unx("statement in a property body")
+            if e.get("expr") is None:
+                raise Unx("block without a value")
+            return self.body(e["expr"], payload, l2)
+        if k == "Path" and e.get("res_kind") == "Local" and e.get("res") in loc_:
+            return loc_[e["res"]]
         if k == "Match":
             sc = _strip(e["scrut"])
             if ekey(sc).lstrip("*&") == "self":
